@@ -34,3 +34,7 @@ def run(ctx):
     for q in ("_quoting_c._Quoter._do_quote", "_quoting_c._Quoter._do_quote_or_skip", "_quoting_c._Unquoter._do_unquote"):
         from ..interp import analyze
         read_bounds(ctx, m, m.func(q), analyze(m, m.func(q)))
+    from ..rules import immut as _immut
+    _immut.im5(ctx)     # cache_clear() / cache_info() / cache_configure() find lru_cache wrappers under the three names, whatever was configured before
+    from ..rules import port as _port
+    _port.prt6(ctx)     # "an object that build() or a modifier returned can always be turned into a string": the port is written as a number
